@@ -744,9 +744,27 @@ class Representation:
                     "computing differential of '{}' with respect to {}".format(
                         word, generator)
                 )
-            word_diff = utils.words.fox_word_derivative(generator, word)
+            # the Fox calculus in utils.words works on strings of
+            # one-character generators, so compute with one letter
+            # standing for each (possibly multi-character) generator
+            # name
+            to_letter = {}
+            for letter, gen in zip(utils.words.SIMPLE_GENERATOR_NAMES,
+                                   self.asym_gens()):
+                to_letter[gen] = letter
+                to_letter[self.invert_gen(gen)] = utils.words.invert_gen(letter)
+            from_letter = {letter: gen for gen, letter in to_letter.items()}
+
+            letters = "".join(to_letter[gen]
+                              for gen in self.parse_word(word)
+                              if gen != "")
+
+            word_diff = utils.words.fox_word_derivative(
+                to_letter[generator], letters)
             matrix_diff = [
-                coeff * self._word_value(word)
+                coeff * self._word_value([from_letter[letter]
+                                          for letter in word],
+                                         parse_simple=True)
                 for word, coeff in word_diff.items()
             ]
             if len(matrix_diff) == 0:
